@@ -12,7 +12,8 @@ THEOREMS = [
     "C04.zigzag_perm_pre", "C04.pre_nodup", "C04.filter_subsequence", "C04.gate_mem_iff",
     "C04.preorder_parent_before_child", "C04.postorder_child_before_parent",
 ]
-RULE = ("all ordered trees up to N nodes x every start node x the 6 generic iterators x sampled "
+RULE = ("history-built trees (built under host ancestors, depths read, detached by del/assignment/parent=None or left "
+        "attached) + all ordered trees up to N nodes x every start node x the 6 generic iterators x sampled "
         "(filter, stop, max_depth) + random trees (<=40 nodes, depth<=10, fan-out<=8) + binary trees with "
         "empty slots (incl. in-order); a case is non-trivial when the started subtree has >=3 nodes; "
         "distinct = distinct protocol lines")
@@ -28,9 +29,13 @@ def spec_from_shape(shape):
     return core.label(shape, lambda i, d, k, p: "n%d" % i)
 
 
-def mk_case(kind, spec, start, md, filt, stop, binary=False, tags=()):
-    """start: pre-order index of the start node; filt: None(all) | list of ids; stop: None | list"""
-    data = {"kind": kind, "spec": spec, "start": start, "md": md, "filt": filt, "stop": stop, "binary": binary}
+def mk_case(kind, spec, start, md, filt, stop, binary=False, tags=(), prep=None):
+    """start: pre-order index of the start node; filt: None(all) | list of ids; stop: None | list;
+    prep: None | {"up": k, "sib": bool, "mode": "stay"|"del"|"assign"|"parent"} — the tree is first built
+    under a chain of k host ancestors, every depth is read once, then it is (unless "stay") detached
+    again by the named structural operation before the iterator runs (a history, not a fresh tree)"""
+    data = {"kind": kind, "spec": spec, "start": start, "md": md, "filt": filt, "stop": stop, "binary": binary,
+            "prep": prep}
     return Case(_line(data), data, tags)
 
 
@@ -68,6 +73,9 @@ def _enc_from(s, first, binary):
 
 def _line(d):
     sub, depth = _sub(d["spec"], d["start"], d["binary"])
+    prep = d.get("prep")
+    if prep and prep["mode"] == "stay":
+        depth += prep["up"]
     filt = "all" if d["filt"] is None else (nats(d["filt"]) if d["filt"] else "empty")
     stop = "none" if d["stop"] is None else (nats(d["stop"]) if d["stop"] else "none")
     head = f"kind={d['kind']} d={depth} md={d['md']} filt={filt} stop={stop}"
@@ -129,6 +137,27 @@ def gen(rng: random.Random, tier: str):
             cases.append(mk_case(kind, spec, start, max(md, 0), filt, stop,
                                  tags=("random", kind, "depth>=5" if depth >= 5 else "depth<5",
                                        "fanout>=3" if core.shape_fanout(shape) >= 3 else "fanout<3")))
+    # history-built trees: built under host ancestors, depths read, then detached (or left attached)
+    for _ in range(300 if tier == "quick" else 3000):
+        size = rng.randint(2, 14)
+        shape = core.random_shape(rng, size)
+        spec = spec_from_shape(shape)
+        depth = core.shape_depth(shape)
+        prep = {"up": rng.randint(1, 3), "sib": rng.random() < 0.5, "mode": rng.choice(["stay", "del", "assign", "parent"])}
+        for kind in KINDS:
+            start = rng.choice([0, 0, rng.randrange(size)])
+            md = rng.choice([0, 1, 2, 3, depth, depth + prep["up"]])
+            stop = None if rng.random() < 0.6 else [i for i in range(size) if rng.random() < 0.15]
+            filt = None if rng.random() < 0.6 else [i for i in range(size) if rng.random() < 0.6]
+            cases.append(mk_case(kind, spec, start, md, filt, stop, prep=prep, tags=("history", "prep=" + prep["mode"], kind)))
+    for _ in range(60 if tier == "quick" else 600):
+        nb = rng.randint(2, 10)
+        spec = core.label_bshape(core.random_bshape(rng, nb))
+        prep = {"up": rng.randint(1, 2), "sib": rng.random() < 0.5, "mode": rng.choice(["stay", "del", "assign", "parent"])}
+        for kind in KINDS + ["inorder"]:
+            md = rng.choice([0, 1, 2, 3, 4])
+            cases.append(mk_case(kind, spec, rng.choice([0, rng.randrange(nb)]), md, None, None, binary=True, prep=prep,
+                                 tags=("history-binary", "prep=" + prep["mode"], kind)))
     # binary trees with holes
     bmax = 5 if tier == "quick" else 6
     for nb in range(1, bmax + 1):
@@ -168,6 +197,28 @@ def _build(d):
         root, nodes = core.build_binary_tree(d["spec"])
     else:
         root, nodes = core.build_node_tree(d["spec"])
+    prep = d.get("prep")
+    if prep:
+        import bigtree
+        cls = bigtree.BinaryNode if d["binary"] else bigtree.Node
+        hosts = [cls("9%d" % i) if d["binary"] else cls("h%d" % i) for i in range(prep["up"])]
+        for a, b in zip(hosts, hosts[1:]):
+            b.parent = a
+        other = cls("77") if d["binary"] else cls("hs")
+        if prep.get("sib"):
+            other.parent = hosts[-1]
+        root.parent = hosts[-1]
+        # read every depth once in the host tree (what any earlier traversal / print would do)
+        _ = [n.depth for n in nodes], hosts[0].max_depth
+        _ = list(bigtree.preorder_iter(hosts[0], max_depth=prep["up"] + 1))
+        mode = prep["mode"]
+        if mode == "del":
+            del hosts[-1].children
+        elif mode == "assign":
+            hosts[-1].children = [other, None] if d["binary"] else [other]
+        elif mode == "parent":
+            root.parent = None
+        nodes[0]._keep_hosts = hosts  # keep the host chain alive
     return root, nodes
 
 
@@ -208,8 +259,14 @@ def oracle(case):
     sset = set() if d["stop"] is None else set(d["stop"])
     kids = lambda n: [c for c in n.children if c is not None]
     k = d["kind"]
+    def dep(n):  # depth from first principles: one plus the number of parent hops
+        k_ = 1
+        while n.parent is not None:
+            n = n.parent
+            k_ += 1
+        return k_
     def ok(n):  # gate
-        return (md == 0 or n.depth <= md) and (k == "inorder" or ids(n) not in sset)
+        return (md == 0 or dep(n) <= md) and (k == "inorder" or ids(n) not in sset)
     def passes(n):
         return fset is None or ids(n) in fset
     # kept nodes: start's subtree minus subtrees rooted at gated-out nodes
@@ -259,8 +316,8 @@ def oracle(case):
         # members all have that depth
         for gi, g in enumerate(res):
             for n in g:
-                if n.depth != start.depth + gi:
-                    msgs.append(f"{k}: group {gi} contains node {ids(n)} of depth {n.depth}")
+                if dep(n) != dep(start) + gi:
+                    msgs.append(f"{k}: group {gi} contains node {ids(n)} of depth {dep(n)}")
         nl = len(ls)
         # the code emits one group per level it reaches; reached levels are the kept layers, plus possibly one
         # trailing level whose candidates were all refused by the stop condition
